@@ -444,6 +444,7 @@ static void run_line(void)
 	else if (!strcmp(op, "csvals")) { sbdf_columnslice* c = CS(2); set(K_VA, hid(1), c ? c->values : 0, 0); printf("%d", c ? 0 : -1); }
 	else if (!strcmp(op, "csrows")) printf("%d", sbdf_cs_row_cnt(CS(1)));
 	else if (!strcmp(op, "csdel")) { sbdf_cs_destroy(CS(1)); set(K_CS, hid(1), 0, 0); printf("0"); }
+	else if (!strcmp(op, "csforget")) { set(K_CS, hid(1), 0, 0); printf("0"); }      /* the struct went with the owning table slice it was added to */
 	else if (!strcmp(op, "csdump")) dump_cs(CS(1));
 	else if (!strcmp(op, "tsnew")) { sbdf_tableslice* t = SENTINEL; e = sbdf_ts_create(TM(2), &t); printf("%d", e); set(K_TS, hid(1), e ? 0 : t, 1); }
 	else if (!strcmp(op, "tsadd")) { e = sbdf_ts_add(CS(2), TS(1)); printf("%d", e); }
@@ -471,6 +472,14 @@ static void run_line(void)
 	else if (!strcmp(op, "wvt")) { sbdf_valuetype vt; vt.id = atoi(tok[2]); printf("%d", sbdf_vt_write(OUT(1)->f, vt)); }
 	else if (!strcmp(op, "bytes")) { ostream* o = OUT(1); printf("%zu ", o->n); puthex(o->buf, o->n); }
 	else if (!strcmp(op, "in")) { bytes b = unhex(tok[2]); set(K_IN, hid(1), in_new(b.p, b.n), 1); free(b.p); printf("0"); }
+	else if (!strcmp(op, "inbig"))
+	{
+		/* the bytes given, followed by zeros up to just over 2 GiB (a sparse file): offsets and sizes beyond INT_MAX */
+		bytes b = unhex(tok[2]); istream* s = in_new(b.p, b.n); free(b.p);
+		if (ftruncate(fileno(s->f), (off_t)2147483648LL + 4096) != 0) abort();
+		s->len = (size_t)2147483648ULL + 4096;
+		set(K_IN, hid(1), s, 1); printf("0");
+	}
 	else if (!strcmp(op, "inpipe")) { bytes b = unhex(tok[2]); set(K_IN, hid(1), in_pipe_new(b.p, b.n), 1); free(b.p); printf("0"); }
 	else if (!strcmp(op, "inw") || !strcmp(op, "intrunc") || !strcmp(op, "inpatch") || !strcmp(op, "inapp"))
 	{
